@@ -9,11 +9,12 @@ import Driver.HNum
 import Driver.HOps
 import Driver.HFunc
 import Driver.HSet
+import Driver.HSetRules
 import Driver.HRefine
 import Driver.HGocty
 open CtyModel
 
-def handlers : List Handler := [handleTy, handleVal, handleNum, handleOps, handleFunc, handleSet, handleRefine, handleGocty]
+def handlers : List Handler := [handleTy, handleVal, handleNum, handleOps, handleFunc, handleSet, handleSetRules, handleRefine, handleGocty]
 
 def handle (op : String) (args : List Sexp) : String :=
   match handlers.findSome? (fun h => h op args) with
